@@ -9,8 +9,8 @@ KINDS = {'lcreate', 'linit', 'lstart', 'lstop', 'lopen', 'lstate', 'lproc', 'leo
 
 class Prop(PropBase):
     pid = 'C11'
-    kernels = ['LidarDriverImpl_processPacket', 'InputSock_recvPacket', 'InputPcap_recvPacket', 'InputPcapJumbo_recvPacket', 'fx_splitFrame']
-    vo_targets = ['Props/Properties_C11.vo', 'Proofs/LifecycleInv.vo', 'Model/Lifecycle.vo', 'Model/Worker.vo', 'Proofs/WorkerExit.vo', 'Proofs/Handover.vo']
+    kernels = ['LidarDriverImpl_processPacket', 'InputSock_recvPacket', 'InputPcap_recvPacket', 'InputPcapJumbo_recvPacket', 'fx_splitFrame', 'fx_start', 'fx_stop', 'fx_decodePacket', 'fx_dtor']
+    vo_targets = ['Props/Properties_C11.vo', 'Proofs/LifecycleInv.vo', 'Model/Lifecycle.vo', 'Model/Worker.vo', 'Proofs/WorkerExit.vo', 'Proofs/Handover.vo', 'Proofs/LifecycleCode.vo']
     prop_files = ['Props/Properties_C11.v']
     harness_variants = ['asan', 'tsan']
     rule = ('random call histories (6..16 calls) over {create, init, start, stop, decodePacket, wait-idle, wait-end-of-file, destroy, re-create} on real LidarDriver objects with real threads: RAW_PACKET, '
